@@ -278,7 +278,79 @@ def run_par(pid, tier, seed, replay):
     return finish(pid, tier, seed, results, cfg, known, wd, t0, mc=extra)
 
 
+FAULT_FAMILIES = ["core", "lru", "struct", "intern", "spec", "fix", "accum"]
+
+
+def run_fault(pid, tier, seed, replay):
+    """C22: crash-point enumeration. Every history is run once to count its user callbacks, then once per
+    callback with a panic injected there; the monitor judges every outcome afterwards."""
+    t0 = time.time()
+    cfg = dict(needs=["inject"], rule="base histories (8 operations) over the families " + ", ".join(FAULT_FAMILIES) +
+               "; one run per user callback (body entry, every read, PartialEq/Hash of values, identity and interned "
+               "fields, cycle_fn / cycle_initial / cycle_result, the event callback) with a panic injected there; "
+               "non-trivial = the injected panic actually fired; plus parallel runs with waiters (parpanic family)")
+    binary, bt = build_harness("default")
+    log(f"[{pid}] harness built in {bt:.1f}s")
+    wd = workdir(f"{pid}-{tier}")
+    known = load_known()
+    results = []
+    if replay:
+        rp = json.load(open(replay))
+        jobs = [rp["job"]] if "job" in rp else rp["jobs"]
+        if jobs and jobs[0].get("rounds"):
+            results.append(parcheck.run_par_family(binary, "replay", seed, 0, wd, jobs=jobs))
+        else:
+            results.append(seqcheck.run_family(binary, rp.get("family", "replay"), seed, 0, 0, wd, jobs=jobs))
+        return finish(pid, tier, seed, results, cfg, known, wd, t0, mc=None)
+    nprog = 5 if tier == "quick" else 60
+    cap = 30 if tier == "quick" else 100000
+    import gen as G
+    crash_points = 0
+    def one_family(args):
+        i, fam = args
+        base = G.gen_jobs(seed * 1000 + 700 + i, nprog, fam, 8)
+        jp = os.path.join(wd, f"base_{fam}.ndjson")
+        tp = os.path.join(wd, f"basetrace_{fam}.ndjson")
+        with open(jp, "w") as f:
+            for j in base:
+                f.write(json.dumps(j, separators=(",", ":")) + "\n")
+        run_driver(binary, "seq", jp, tp)
+        cbs = {}
+        cur = None
+        for line in open(tp):
+            if '"e":"reset"' in line[:40]:
+                cur = json.loads(line)["job"]
+            elif '"e":"dbdrop_end"' in line[:40]:
+                cbs[cur] = json.loads(line).get("cbs", 0)
+        jobs = []
+        total = 0
+        for j in base:
+            n = cbs.get(j["id"], 0)
+            total += n
+            ks = list(range(1, n + 1))
+            if len(ks) > cap:
+                step = len(ks) / cap
+                ks = sorted({ks[int(x * step)] for x in range(cap)})
+            for k in ks:
+                jj = dict(j)
+                jj["id"] = len(jobs) + 1
+                jj["inject"] = k
+                jj["mode"] = "fault-" + fam
+                jobs.append(jj)
+        r = seqcheck.run_family(binary, "fault-" + fam, seed, 0, 0, wd, jobs=jobs)
+        r["crash_points_total"] = total
+        return r
+    with ThreadPoolExecutor(max_workers=6) as ex:
+        results = list(ex.map(one_family, list(enumerate(FAULT_FAMILIES))))
+    results += run_par_families(binary, ["parpanic"], tier, seed, wd)
+    extra = {"crash_points_in_base_histories": sum(r.get("crash_points_total", 0) for r in results),
+             "exhaustive": tier == "thorough"}
+    return finish(pid, tier, seed, results, cfg, known, wd, t0, mc=extra)
+
+
 def run(pid, tier, seed, replay):
+    if pid == "C22":
+        return run_fault(pid, tier, seed, replay)
     if pid in PAR:
         return run_par(pid, tier, seed, replay)
     if pid in SEQ:
